@@ -115,8 +115,8 @@ def pipe_verilog(work, gmp, bmjson):
     return res
 
 
-def pipe_verilog_bmapi(work, gmp, bmjson):
-    """HDL generation with the BMAPI (AXI memory mapped) interface: every input and output of the machine is mapped"""
+def pipe_verilog_bmapi(work, gmp, bmjson, flavor="aximm"):
+    """HDL generation with the BMAPI interface (AXI memory mapped or AXI stream): every input and output of the machine is mapped"""
     import json as _json
     open(os.path.join(work, "bm.json"), "wb").write(bmjson)
     bm = _json.loads(bmjson)
@@ -126,8 +126,10 @@ def pipe_verilog_bmapi(work, gmp, bmjson):
     vd = os.path.join(work, "v")
     os.mkdir(vd)
     rc, out = run_tool([tool("bondmachine"), "-bondmachine-file", "../bm.json", "-create-verilog", "-verilog-flavor", "zedboard", "-use-bmapi",
-                        "-bmapi-flavor", "aximm", "-bmapi-mapfile", "../map.json", "-bmapi-liboutdir", "lib", "-bmapi-modoutdir", "mod",
-                        "-bmapi-auxoutdir", "aux"], vd, gmp)
+                        "-bmapi-flavor", flavor, "-bmapi-mapfile", "../map.json", "-bmapi-liboutdir", "lib", "-bmapi-modoutdir", "mod",
+                        "-bmapi-auxoutdir", "aux"] +
+                       (["-bmapi-flavor-version", "basic", "-bmapi-language", "python", "-bmapi-framework", "pynq", "-bmapi-packagename", "p",
+                         "-bmapi-modulename", "m"] if flavor == "axist" else []), vd, gmp)
     res = {"rc": str(rc).encode()}
     for root, _, files in os.walk(vd):
         for f in sorted(files):
@@ -307,7 +309,8 @@ def run(res, a):
             if arts0.get("bondmachine.json"):
                 verilog_inputs.append((name, arts0["bondmachine.json"]))
     vjobs = [("verilog:" + n, (lambda w, g, b=b: pipe_verilog(w, g, b))) for n, b in verilog_inputs[:6 if a.tier == "quick" else 40]]
-    vjobs += [("verilog-bmapi:" + n, (lambda w, g, b=b: pipe_verilog_bmapi(w, g, b))) for n, b in verilog_inputs if n.endswith("threeio.basm")][:1]
+    vjobs += [("verilog-bmapi-%s:%s" % (fl, n), (lambda w, g, b=b, fl=fl: pipe_verilog_bmapi(w, g, b, fl)))
+              for n, b in verilog_inputs if n == "basm:threeio.basm" for fl in ("aximm", "axist")]
     with ThreadPoolExecutor(max_workers=14) as ex:
         vres = list(ex.map(lambda j: repeat(j, runs if j[0].startswith("verilog-bmapi") else max(3, runs // 2)), vjobs))
     for name, outs in vres:
